@@ -81,8 +81,42 @@ func shootForm(r *vh.Rand, name string) (string, int) {
 	}
 }
 
+// genVLists picks list variables "src.list"; most of the time several sources have a list of
+// the same name.
+func genVLists(r *vh.Rand) []string {
+	var out []string
+	if r.Chance(1, 5) {
+		return out
+	}
+	name := r.Pick([]string{"users", "users", "items", "rows"})
+	for _, src := range []string{"eu", "us", "ru"} {
+		if r.Chance(2, 3) {
+			out = append(out, src+"."+name)
+		}
+		if r.Chance(1, 4) {
+			out = append(out, src+"."+r.Pick([]string{"users", "items", "rows"}))
+		}
+	}
+	// no duplicates
+	seen := map[string]bool{}
+	var u []string
+	for _, v := range out {
+		if !seen[v] {
+			seen[v] = true
+			u = append(u, v)
+		}
+	}
+	return u
+}
+
 func genSpec(r *vh.Rand, o genOpts) (tables, reqs, scens string, info genInfo) {
 	tables = fmt.Sprintf("users=%d,items=%d", r.Range(1, 4), r.Range(1, 3))
+	// list variables of `variables` sources: the same list name under several sources (and the
+	// name of a csv table)
+	vlists := genVLists(r)
+	for _, v := range vlists {
+		tables += fmt.Sprintf(",%s=%d", v, r.Range(1, 4))
+	}
 	nreq := r.Range(1, 5)
 	names := make([]string, nreq)
 	for i := range names {
@@ -117,6 +151,19 @@ func genSpec(r *vh.Rand, o genOpts) (tables, reqs, scens string, info genInfo) {
 			}
 			if r.Chance(1, 5) {
 				pre = append(pre, "l:L:users:id")
+			}
+			// [next] on list variables: distinct variables v, w, u take distinct lists (the
+			// mapping is a Go map: evaluation order is not fixed, so no list twice per request)
+			if len(vlists) > 0 && r.Chance(2, 3) {
+				vs := append([]string(nil), vlists...)
+				for k, name := range []string{"v", "w", "u"} {
+					if len(vs) == 0 || (k > 0 && r.Chance(1, 3)) {
+						break
+					}
+					j := r.Intn(len(vs))
+					pre = append(pre, name+":V:"+strings.Replace(vs[j], ".", ":", 1))
+					vs = append(vs[:j], vs[j+1:]...)
+				}
 			}
 			if r.Chance(1, 5) {
 				pre = append(pre, fmt.Sprintf("i:I:users:%d:name", r.Range(-5, 7)))
@@ -249,6 +296,10 @@ func genScript(r *vh.Rand, n int) string {
 
 func genInst(r *vh.Rand) string {
 	tables := fmt.Sprintf("users=%d,items=%d", r.Range(1, 5), r.Range(1, 3))
+	vlists := genVLists(r)
+	for _, v := range vlists {
+		tables += fmt.Sprintf(",%s=%d", v, r.Range(1, 5))
+	}
 	nscen := r.Range(1, 2)
 	var rs, ss []string
 	for i := 0; i < nscen; i++ {
@@ -257,6 +308,20 @@ func genInst(r *vh.Rand) string {
 		for j := 0; j < nreq; j++ {
 			name := fmt.Sprintf("s%dr%d", i, j)
 			pre := "x:N:users:id"
+			if len(vlists) > 0 && r.Chance(1, 2) {
+				// the row the target sees comes from a list variable; another list (often of the
+				// same name under another source) is advanced by the same request
+				vs := append([]string(nil), vlists...)
+				k := r.Intn(len(vs))
+				pre = "x:V:" + strings.Replace(vs[k], ".", ":", 1)
+				vs = append(vs[:k], vs[k+1:]...)
+				if len(vs) > 0 && r.Chance(2, 3) {
+					pre += "+w:V:" + strings.Replace(vs[r.Intn(len(vs))], ".", ":", 1)
+				}
+				if r.Chance(1, 3) {
+					pre += "+u:N:users:id"
+				}
+			}
 			if r.Chance(1, 4) {
 				pre += "+y:N:items:id"
 			}
